@@ -27,10 +27,11 @@ fn mk(rng: &mut Rng, marker: &mut u32) -> (dr::Instruction, u32) {
 
 /// The marker of an instruction built by `mk` from its assembled words.
 fn marker_of_words(w: &[u32]) -> u32 {
-    match w[0] & 0xffff {
-        1 => w[2],   // Undef: type, id
-        248 => w[1], // Label
-        _ => w[1],   // Name / Line / Decorate: first operand
+    // (total: an assembly that is shorter than the instruction it stands for has marker 0)
+    let at = |i: usize| w.get(i).copied().unwrap_or(0);
+    match at(0) & 0xffff {
+        1 => at(2), // Undef: type, id
+        _ => at(1), // Label: id; Name / Line / Decorate: first operand
     }
 }
 fn marker_of(i: &dr::Instruction) -> u32 {
